@@ -218,6 +218,8 @@ def model_term(c, o):
             opt = "(OAdvert %s %s %s)" % (cN(e["to"]), cN(holder_of_advert(e)), keys)
         elif e.get("op") == "set_range" and "value" in e:
             opt = "(OSetRange %s %s)" % (cN(e["node"]), cN(int(e["value"])))
+        elif e.get("op") == "cleanup" and e.get("before", 0) >= e.get("threshold", 1 << 30):
+            opt = "(OCleanup %s)" % cN(e["node"])
         else:
             pending_sets += sets
             continue
@@ -745,6 +747,35 @@ def gen_regrow(rng, idx, variant=None):
     return {"kind": variant, "nodes": nodes, "ops": ops, "full_rounds": rounds}
 
 
+def gen_bigstore(rng, idx, count=None):
+    """node 1 holds more than MAX_RECORDS_COUNT/10 filler records spread over the whole key space, gets a
+    responsible range = the distance of one of the keys node 0 is about to advertise (exactly / one above),
+    stores one more record (the fetcher takes the range) and runs its irrelevant-record clean-up, which drops
+    every filler beyond the range. Node 0's list then carries >= 2 new keys: the one AT the range is farther
+    than everything node 1 still holds and must be fetched all the same"""
+    nodes = rng.sample(range(1, 60), 2)
+    ops = connects(2, rng, True)
+    m = rng.randint(4, 7)
+    recs = [rec_chunk(idx * 20 + j) for j in range(m)]
+    for r in recs:
+        ops.append(seed(0, r))
+    ops.append({"op": "bulk_store", "node": 1, "count": count or rng.choice([1640, 1640, 1700, 1630]), "salt": idx})
+    j = rng.randint(1, m - 2)
+    ops.append({"op": "set_range", "node": 1, "range": among(recs, j, rng.choice([0, 0, 1]))})
+    ops.append(seed(1, rec_chunk(idx * 20 + 10)))
+    ops.append({"op": "cleanup", "node": 1})
+    if rng.random() < 0.5:
+        ops.append({"op": "advert", "to": 1, "holder": 0, "keys": [[r["key"], "chunk"] for r in recs]})
+    else:
+        ops.append({"op": "replicate", "node": 0})
+    ops.append({"op": "run", "picks": [rng.randrange(0, 4) for _ in range(3)]})
+    if rng.random() < 0.5:
+        ops.append({"op": "cleanup", "node": 1})
+        ops.append({"op": "replicate", "node": 0})
+        ops.append({"op": "run", "picks": [0]})
+    return {"kind": "bigstore", "nodes": nodes, "ops": ops, "full_rounds": 0}
+
+
 def gen_edge(rng, idx):
     """the ADVERTISER's responsible range sits exactly on / one below / one above the distance of its r-th
     nearest routing-table peer (r around CLOSE_GROUP_SIZE .. +2, as the density tick sets it: the distance
@@ -872,6 +903,8 @@ def gen(ctx):
     for i in range(n):
         f = fams[i % len(fams)]
         cases.append(f(rng, 100 + i))
+    for i in range(1 if ctx.tier == "quick" else 6):
+        cases.append(gen_bigstore(rng, 5000 + i, 1640 if i == 0 else None))
     return cases
 
 
